@@ -205,8 +205,15 @@ def run_rows(case, ctx):
                     integer = full.dtype.kind in "iub"
                     c2 = dict(cfg, method=m)
 
+                    # ExtendedFeatures multiplies columns element by element (no BLAS, no reduction): what a row gets is
+                    # the same to the last bit in every batch, every layout
+                    exact_rows = spec.name == "ExtendedFeatures"
+
                     def judge(i, got_row, how):
-                        if row_equal(full[i], got_row, integer):
+                        if exact_rows:
+                            if numpy.array_equal(numpy.asarray(full[i]), numpy.asarray(got_row), equal_nan=True):
+                                return True
+                        elif row_equal(full[i], got_row, integer):
                             return True
                         if integer and marg is not None and marg[i] < 1e-9 and not (exact_l1 and marg[i] == 0.0):
                             ctx.excluded("near-tie-row")
@@ -226,6 +233,21 @@ def run_rows(case, ctx):
                             if len(one) != 1 or not judge(i, one[0], "alone"):
                                 ok = False
                                 break
+                        if ok and isinstance(Q, numpy.ndarray) and Q.ndim == 2 and Q.dtype.kind == "f" and n >= 2:
+                            # the same rows as a column-major batch and as every other row of a longer buffer
+                            big_ = numpy.zeros((2 * n, Q.shape[1]), dtype=Q.dtype)
+                            big_[::2] = Q
+                            for lname_, Ql in (("fortran-ordered", numpy.asfortranarray(Q)), ("strided", big_[::2])):
+                                try:
+                                    lout = spec.outputs(est, Ql, [m])[m]
+                                except Exception:
+                                    ctx.excluded("batch layout refused by this method")
+                                    continue
+                                ctx.hit("rows.layout_of_the_batch")
+                                for i in range(n):
+                                    if not judge(i, lout[i], "in-a-%s-batch" % lname_):
+                                        ok = False
+                                        break
                         for _ in range(3):
                             if not ok or n < 3:
                                 break
